@@ -2,8 +2,9 @@
 //
 // Two harnesses in one binary:
 //
-//	B (harness_b.go)  input product over scheme x Host x Origin x Referer x TrustedOrigins with a
-//	                  valid token+cookie, so that only the origin decision is observed;
+//	B (harness_b.go)  input product over scheme x Host x Origin x Referer x TrustedOrigins (canonical and respelt
+//	                  entries; origins derived from the entries) with a valid token+cookie, so that only the
+//	                  origin decision is observed; every passing combination again without a live token;
 //	A (harness_a.go)  explicit-state BFS over operation histories of three clients against the real
 //	                  middleware on an injected storage with a harness-owned virtual clock and at
 //	                  most one injected storage failure, compared with a reference token model;
@@ -96,7 +97,7 @@ func main() {
 	debug.SetGCPercent(200)  // every execution builds a fresh app: allocation-heavy, small live heap
 	if r.Deadline.IsZero() { // internal budget: a capped run ends with exhaustive=false and exit 0
 		if r.Quick() {
-			r.Deadline = r.Start.Add(55 * time.Second)
+			r.Deadline = r.Start.Add(70 * time.Second)
 		} else {
 			r.Deadline = r.Start.Add(14 * time.Minute)
 		}
@@ -153,6 +154,18 @@ func main() {
 		}
 	}
 
+	if cInfo != nil && *onlyCfg == "" && len(r.P.Caps) == 0 {
+		// near-miss dimension: the base token must have been live, and both rejection classes seen
+		for _, need := range []string{"A.nearmiss.base_token_live", "A.nearmiss.rejected.not-issued", "A.nearmiss.rejected.token-cookie-mismatch"} {
+			if r.P.Counters[need] == 0 {
+				core.Fatal("vacuous near-miss dimension: counter %s is 0", need)
+			}
+		}
+	}
+	if bInfo != nil && (r.P.Counters["B.badtoken_evaluations"] == 0 || r.P.Counters["B.badtoken_rejected"] == 0) {
+		core.Fatal("vacuous harness B: token state x origin dimension not exercised (evaluations=%d rejected=%d)", r.P.Counters["B.badtoken_evaluations"], r.P.Counters["B.badtoken_rejected"])
+	}
+
 	cov := map[string]any{
 		"samples": samples,
 		"bounds":  map[string]any{"A": aInfo["bounds"], "B": bInfo["bounds"], "A_request_layout_family": cInfo["bounds"]},
@@ -194,11 +207,16 @@ func main() {
 			"handler-level drive (app.Handler() on a fake connection carrying peer address and TLS flag); fasthttp request parsing is exercised as is",
 			"A: the requests of a history are served by ONE fasthttp.RequestCtx that is reset between requests (user values, Request, Response) as fasthttp does on a keep-alive connection / through its ctx pool; the request-layout family repeats its histories on a fresh RequestCtx per request; a violation that disappears on fresh RequestCtxs carries the signature suffix reused-ctx-only. The bytes left in the RequestCtx buffers are not part of the canonical state key of the BFS, therefore the request-layout family does not de-duplicate states",
 			"A: the injected fiber.Storage keeps the key strings it is given (as fiber's own internal/storage/memory and other map-based storages do; entries are searched by comparing key bytes, no hashing) and copies values; the middleware's own in-memory store (no Storage configured) is run as is, minus its janitor goroutine (overlay dropgo)",
-			"A: expiry is owned by the harness only through the injected fiber.Storage (virtual clock); the middleware's own time.Now() reads (cookie Expires; session-backend Token.Expiration) stay on the wall clock and never fire inside a run, so session-middleware configurations only tick by idle+1 (all storage entries expire)",
+			"A: time: the injected fiber.Storage decides expiry against its own virtual clock; the clocks the middleware reads itself (time.Now of package csrf: Token.Expiration of session backends, cookie Expires; utils.Timestamp of the built-in store) are held CONSTANT for the whole run through the build overlay, and a tick of a history is a time translation of what was stored with an absolute time: Token.Expiration inside every stored session blob moves into the past by the tick plus one nanosecond (a request never happens exactly on an expiry boundary), every entry of the built-in store by the tick (overlay accessor); the session package's own time.Now reads (absolute session timeout, not configured) stay on the wall clock",
+			"A: in the session-idle=3x configurations the session store / middleware has IdleTimeout = 3 x the CSRF IdleTimeout, so that a token kept in a session expires only through Token.Expiration; in the IdleTimeout+ErrorHandler=unset configurations the token lifetime is the documented default (30 minutes) and the ticks are half of it / one second more than it",
+			"A: a CSRF cookie with a non-empty value whose Expires is not after the constant clock, or whose Max-Age is negative, is no cookie: the client keeps nothing and the safe request is judged to have left no valid cookie",
+			"A: near-miss requests (request-layout family) present a value derived from the client's current token (last byte dropped / one byte appended / upper case / last byte changed); none of them was issued by the server, and none equals the genuine value it is compared with",
 			"A: states are deduplicated by a canonical key (model live set with relative expiries, storage contents, client-held cookies/tokens, fault-used flag) modulo renaming of generated tokens and session ids; soundness rests on the middleware treating token strings opaquely",
 			"A: redundant/conflicting configurations: 'the configured extractor' is the explicit Extractor when one is set (documentation: KeyLookup is then ignored), otherwise the KeyLookup one; 'the CSRF cookie' is the cookie in which a safe request is observed to leave the generated token (not derived from KeyLookup/CookieName by the harness); when the extractor reads that very cookie the cookie-match conjunct holds by construction",
 			"A: the reference model is deliberately generous (a token is live from generation, extended on every accepted use); the statement is an only-if for unsafe requests, so a rejection the model would allow is counted (model_allows_but_rejected), never flagged",
 			"B: reference origin predicate = RFC 6454 (scheme, lower-cased host, port with defaults) of the URL's authority; path/query/fragment/userinfo never contribute; wildcard entries require a non-empty label in front of the domain; net/url is the trusted URL parser",
+			"B: every request is served on a RequestCtx of its own (buffer reuse is the subject of the request-layout family of harness A); blanks around a TrustedOrigins entry are not part of the entry (the middleware trims them); the neighbours of the configured entries (nearOrigins) are used as Origin everywhere and as Referer where the Referer can decide (Origin absent or null)",
+			"B: a violation seen only with a respelt TrustedOrigins configuration carries ` entry=<spelling>`; if a canonical configuration shows the same signature the respelt cases are counted under it",
 			"Origin: null is counted as unspecified (the statement does not say whether it is 'present') unless an https Referer from a foreign origin is let through",
 			"safe request during which a storage call fails: the statement is over-determined ('always pass and leave a valid cookie' vs 'rejected'); either documented behaviour is accepted, only 'passes and leaves a token that is not accepted' is flagged",
 		},
